@@ -32,6 +32,7 @@ import (
 	"os"
 	"strings"
 	"sync"
+	"sync/atomic"
 	"syscall"
 	"testing"
 	"time"
@@ -115,6 +116,7 @@ type verifC11API struct {
 	snd    *verifC11Sender
 	rec    *kit.Rec
 	pool   chan *verifC11Conn
+	dead   atomic.Bool // the server stopped answering even a control request: stop sending
 }
 
 type verifC11Conn struct {
@@ -275,8 +277,37 @@ func (h *verifC11API) verifExchange(req []byte, halfClose, fresh bool, wait time
 	return resp.StatusCode, local, reused, nil
 }
 
+// verifStillAnswers is the CONTROL after a request stayed unanswered: an ordinary POST on a fresh
+// connection, which a healthy server answers (400 for this body).  If the control gets no answer within
+// 30 s either, the one server of this run no longer serves: reported once with the stacks of the
+// goroutines sitting in the registrar's handlers, and the run stops sending.
+func (h *verifC11API) verifStillAnswers(after string) {
+	if h.dead.Load() {
+		return
+	}
+	req := []byte("POST /register HTTP/1.1\r\nHost: registrar.example\r\nContent-Length: 40\r\nConnection: close\r\n\r\n" + strings.Repeat("x", 40))
+	status, _, _, err := h.verifExchange(req, false, true, 30*time.Second)
+	if status > 0 {
+		h.rec.Count("controls_answered_after_an_unanswered_request", 1)
+		return
+	}
+	if !h.dead.CompareAndSwap(false, true) {
+		return
+	}
+	gs := kit.InFunc(kit.Stacks(), "apiregserver.(*APIRegServer)", "regprocessor.(*RegProcessor)")
+	sample := ""
+	if len(gs) > 0 {
+		sample = gs[0].Raw
+	}
+	h.rec.Violation("hang:api-server:no-longer-answers", "after an unanswered request ("+after+") an ordinary control request on a fresh connection got no answer within 30 s either: the server no longer serves",
+		map[string]interface{}{"client_error": fmt.Sprint(err), "goroutines_in_handlers": len(gs), "sample_stack": sample})
+}
+
 func (h *verifC11API) verifExec(entry, path string) func(c *kit.C11Case) string {
 	return func(c *kit.C11Case) string {
+		if h.dead.Load() {
+			return "not-sent(server no longer answers)"
+		}
 		req, shape, halfClose := verifC11Request(path, c.In)
 		var status int
 		var local string
@@ -306,6 +337,7 @@ func (h *verifC11API) verifExec(entry, path string) func(c *kit.C11Case) string 
 						w := kit.C11Witness(c.In)
 						w["entry"], w["request_first_line"] = entry, strings.SplitN(string(req), "\r\n", 2)[0]
 						h.rec.Violation("hang:"+entry+":no-response-in-60s", "an HTTP registration request got no answer within 60 s (retried alone)", w)
+						h.verifStillAnswers(entry)
 						return "NO-ANSWER"
 					}
 				}
@@ -386,7 +418,7 @@ func TestVerifC11API(t *testing.T) {
 		{"apiregserver.registerBidirectional", "/register-bidirectional"},
 		{"apiregserver.register", "/register"},
 	} {
-		kit.C11Drive(rec, kit.C11Entry{Name: e.entry, N: n, Workers: 8, Budget: 120 * time.Second,
+		kit.C11Drive(rec, kit.C11Entry{Name: e.entry, N: n, Workers: 8, Budget: 200 * time.Second,
 			Gen: verifC11APIGen, Exec: h.verifExec(e.entry, e.path), SampleEvery: 5000})
 	}
 	h.verifRawDrive(rec) // request framing over raw sockets, see zz_verif_c11_raw_test.go
